@@ -81,3 +81,39 @@ Example C10_witness :
   length (filter (fun f => match eff_opp ecore_features f with Some _ => true | None => false end) ecore_features) = 16%nat /\
   not_written ecore_classes ecore_features signature_features = [].
 Proof. vm_compute. repeat split; reflexivity. Qed.
+
+(* ---- name-based fragments of classifiers and sub-packages (Model/NameFrag.v: the walk of
+   Resource._navigate_from, sub-packages first; tied to the running resolver by the
+   correspondence of harness/props/c10.py, family nsprefix, through run_namefrag) ---- *)
+From PyecoreV Require Import Model.NameFrag Proofs.NameFragProofs.
+
+(* PARTIAL: a package is found at its fragment; a classifier is found at its fragment provided no
+   sub-package of its package bears its name.  Missing: the members of classifiers (features,
+   operations: C11's subject) and the namesake case, which is refuted below. *)
+Theorem C10_name_fragment_partial :
+  forall root path q,
+    package_at root path = Some q ->
+    resolve root (fragment (TPackage path)) = Some (TPackage path) /\
+    (forall n, In n (pkg_classifiers q) -> kinds_disjoint_at q = true ->
+       resolve root (fragment (TClassifier path n)) = Some (TClassifier path n)).
+Proof. exact name_fragment_partial. Qed.
+Print Assumptions C10_name_fragment_partial.
+
+(* a classifier named like a sub-package of its package: its fragment designates the sub-package *)
+Theorem C10_namesake_designates_subpackage :
+  forall root path q n s,
+    package_at root path = Some q -> find_sub n (pkg_subs q) = Some s ->
+    resolve root (fragment (TClassifier path n)) = Some (TPackage (path ++ [n])).
+Proof. exact namesake_takes_the_subpackage. Qed.
+Print Assumptions C10_namesake_designates_subpackage.
+
+(* known finding F-C10-namesake-classifier-referenced: class 7 next to sub-package 7 (holding class 2):
+   '#//7' meant for the class gives the package, while '#//7/2' (into the sub-package) is right *)
+Example C10_namesake_classifier_refuted :
+  let root := Pkg 0%Z [7%Z; 1%Z] [Pkg 7%Z [2%Z] []] in
+  In 7%Z (pkg_classifiers root) /\
+  resolve root (fragment (TClassifier [] 7%Z)) = Some (TPackage [7%Z]) /\
+  resolve root (fragment (TClassifier [] 7%Z)) <> Some (TClassifier [] 7%Z) /\
+  resolve root (fragment (TClassifier [7%Z] 2%Z)) = Some (TClassifier [7%Z] 2%Z) /\
+  run_namefrag [0;2;7;1;1; 7;1;2;0; 1;7]%Z = [1;7]%Z.
+Proof. vm_compute. repeat split; try reflexivity; try (left; reflexivity); discriminate. Qed.
